@@ -47,6 +47,8 @@ func genC08ReadLoop() string {
 	pkgs, err := parser.ParseDir(fset, dir, nil, 0)
 	loopFound, readFound, examineFound, examineTopLevel := false, false, false, false
 	var jumps []string
+	examinedBuf := ""
+	var msgIDArgs, subIDArgs, storedArgs []string
 	detFound := false
 	promptAssigns, selectedAssigns, promptBeforeLastSelected := 0, 0, 0
 	isSel := func(e ast.Expr, path ...string) bool {
@@ -93,6 +95,30 @@ func genC08ReadLoop() string {
 								if is, ok := ls.(*ast.IfStmt); ok && examIdx < 0 && isCall(is.Cond, "Channel", "PromptPattern", "Match") {
 									examIdx = i
 								}
+							}
+							if examIdx >= 0 {
+								// what is examined, and what the id patterns are run over
+								is := loop.Body.List[examIdx].(*ast.IfStmt)
+								if c, ok := is.Cond.(*ast.CallExpr); ok && len(c.Args) == 1 {
+									examinedBuf = c08ExprString(fset, src, c.Args[0])
+								}
+								ast.Inspect(is, func(n ast.Node) bool {
+									if c, ok := n.(*ast.CallExpr); ok && len(c.Args) >= 1 {
+										if isSel(c.Fun, "messageID", "FindSubmatch") {
+											msgIDArgs = append(msgIDArgs, c08ExprString(fset, src, c.Args[0]))
+										}
+										if isSel(c.Fun, "subscriptionID", "FindSubmatch") {
+											subIDArgs = append(subIDArgs, c08ExprString(fset, src, c.Args[0]))
+										}
+										if isSel(c.Fun, "storeMessage") && len(c.Args) == 2 {
+											storedArgs = append(storedArgs, c08ExprString(fset, src, c.Args[1]))
+										}
+										if isSel(c.Fun, "storeSubscriptionMessage") && len(c.Args) == 2 {
+											storedArgs = append(storedArgs, c08ExprString(fset, src, c.Args[1]))
+										}
+									}
+									return true
+								})
 							}
 							readFound, examineFound = readIdx >= 0, examIdx >= 0
 							examineTopLevel = examIdx >= 0
@@ -200,6 +226,16 @@ func genC08ReadLoop() string {
 	b.WriteString("namespace Scrapli.Gen.C08ReadLoop\n\n")
 	fmt.Fprintf(&b, "/-- `(*Driver).read` has a `for` loop with `… := d.Channel.Read()` and, later and at the top level of the loop body, `if d.Channel.PromptPattern.Match(b)` -/\ndef readLoopFound : Bool := %v\n", loopFound && readFound && examineFound && examineTopLevel)
 	fmt.Fprintf(&b, "/-- jumps (`continue` / `break` / `goto`, with their conditions) between taking bytes off the channel and examining the buffer -/\ndef jumpsBetweenReadAndExamine : List String := [%s]\n", strings.Join(q, ", "))
+	ql := func(xs []string) string {
+		o := make([]string, len(xs))
+		for i, x := range xs {
+			o[i] = strconv.Quote(x)
+		}
+		return "[" + strings.Join(o, ", ") + "]"
+	}
+	fmt.Fprintf(&b, "/-- the expression the end-of-message test `d.Channel.PromptPattern.Match(…)` examines (the read loop's message buffer) -/\ndef examinedBuffer : String := %s\n", strconv.Quote(examinedBuf))
+	fmt.Fprintf(&b, "/-- the arguments of `patterns.messageID.FindSubmatch(…)` / `patterns.subscriptionID.FindSubmatch(…)` inside that test, as written -/\ndef messageIDSearchArgs : List String := %s\ndef subscriptionIDSearchArgs : List String := %s\n", ql(msgIDArgs), ql(subIDArgs))
+	fmt.Fprintf(&b, "/-- the message arguments of `storeMessage` / `storeSubscriptionMessage` inside that test, as written -/\ndef storedMessageArgs : List String := %s\n", ql(storedArgs))
 	fmt.Fprintf(&b, "/-- `(*Driver).determineVersion` found -/\ndef determineVersionFound : Bool := %v\n", detFound)
 	fmt.Fprintf(&b, "/-- assignments to `d.Channel.PromptPattern` / `d.SelectedVersion` in `determineVersion` -/\ndef promptPatternAssigns : Nat := %d\ndef selectedVersionAssigns : Nat := %d\n", promptAssigns, selectedAssigns)
 	fmt.Fprintf(&b, "/-- assignments to `d.Channel.PromptPattern` that stand before the last assignment to `d.SelectedVersion` -/\ndef promptPatternAssignsBeforeLastSelectedVersion : Nat := %d\n", promptBeforeLastSelected)
